@@ -101,10 +101,3 @@ Definition iicase_spec (c : iicase) : bool :=
   | _ => false
   end && ii_at_bound c && negb (ii_after_bound c).
 Definition check_iicases := check_cases iicase_agree iicase_spec.
-
-Example issue_instant_zoned_examples :
-  issue_instant_text_zoned 1715000000123456789 0 = issue_instant_text 1715000000123456789
-  /\ issue_instant_text_zoned 1715000000123456789 19800 = "2024-05-06T18:23:20.123+05:30"
-  /\ issue_instant_text_zoned 1715000000000000001 (-18000) = "2024-05-06T07:53:20-05:00"
-  /\ parse_relaxed "2024-05-06T18:23:20.123+05:30" = Ok (wire_instant 1715000000123456789).
-Proof. vm_compute. repeat split; reflexivity. Qed.
